@@ -1,6 +1,8 @@
 \* C29 PoSA: family heco, chain configuration B (MCPoSA!SetsB), mode gen
 SPECIFICATION Spec
 CONSTANTS Family = "heco"
+          Epoch = 0
+          CliqueFixed = FALSE
           Sets <- SetsB
           GenesisSigner = "c"
           G0 = 200
